@@ -224,8 +224,10 @@ func (m *Manager) registerConnection(conn *Connection) {
 func (m *Manager) handleDisconnect(conn *Connection, err error) {
 	m.mu.Lock()
 	// Remove from peers map if this is still the active connection
+	wasRegistered := false
 	if existing, ok := m.peers[conn.RemoteID]; ok && existing == conn {
 		delete(m.peers, conn.RemoteID)
+		wasRegistered = true
 	}
 
 	// Find the peer info using the config address (original dial address).
@@ -238,8 +240,12 @@ func (m *Manager) handleDisconnect(conn *Connection, err error) {
 	}
 	m.mu.Unlock()
 
-	// Notify callback
-	if m.cfg.OnPeerDisconnect != nil {
+	// Notify callback, but only when this call ended the peer's registration.
+	// A stale teardown (a rejected duplicate, or the second of the read and
+	// keepalive loops reporting the same connection after the peer has already
+	// reconnected) must not make the agent drop the routes and relays of the
+	// connection that is live now: that cleanup is keyed by peer identity.
+	if wasRegistered && m.cfg.OnPeerDisconnect != nil {
 		m.cfg.OnPeerDisconnect(conn, err)
 	}
 
